@@ -585,7 +585,7 @@ _SH = lambda k: f'shift_month(reference.year, reference.month, swift)[{k}]'
 _SCR_CFG = Config(tables=dict(month_of_year=Map('str', 'int', 1, 12), day_of_month=Map('str', 'int', 1, 31)),
                   funcs=dict(get_swift_day_or_month=Returns(Expr('swift')), is_future=Returns(Const(True))))
 CONTRACTS += [
-    Contract('dp.dateperiod.simple_case.relative_month', BDP + '_parse_simple_case', ['C08'],
+    Contract('dp.dateperiod.simple_case.relative_month', BDP + '_parse_simple_case', ['C08', 'C10'],
              params=dict(swift=Int(-1, 1), d0s=Str(), d1s=Str(),
                          self=Rec(DT + 'base_dateperiod.py::BaseDatePeriodParser', dict(config=_SCR_CFG, _inclusive_end_period=Const(False))),
                          source=Str(), reference=DateTime(1950, 2090)),
